@@ -48,13 +48,13 @@ fn script(u: &mut Unstructured, wide: bool) -> Vec<Step> {
             2 | 3 => Step::NextBack,
             4 => Step::Dbg,
             5 => Step::Fork,
-            6 => Step::Nth(u.int_in_range(0u8..=4).unwrap_or(0)),
-            7 => Step::NthBack(u.int_in_range(0u8..=4).unwrap_or(0)),
+            6 => Step::Nth(u.int_in_range(0u16..=4).unwrap_or(0)),
+            7 => Step::NthBack(u.int_in_range(0u16..=4).unwrap_or(0)),
             8 => Step::Count,
             9 => Step::Last,
             10 => Step::Fold,
-            11 => Step::Skip(u.int_in_range(0u8..=3).unwrap_or(0)),
-            12 => Step::StepBy(u.int_in_range(0u8..=2).unwrap_or(0)),
+            11 => Step::Skip(u.int_in_range(0u16..=3).unwrap_or(0)),
+            12 => Step::StepBy(u.int_in_range(0u16..=2).unwrap_or(0)),
             13 => Step::RFold,
             14 => Step::RevLast,
             15 => Step::Search,
